@@ -17,7 +17,7 @@ RULE = ("[also: discover() against 1-5 UDP ListIdentity replies drawn from {ok, 
         "and write with the fault on each fragment position, SLC/PCCC read and write, multi-service read/write with every per-service status vector of length <= 4 over "
         "{0,4,5,6,0xFF}, register session, list identity, symbol-list page, template attribute and template read during upload} x general "
         "status 0..255 x extended-status size {0,1,2 words} (table values + random) -> truthy exactly for status 0 (6 only for continuing "
-        "services), otherwise falsy with non-empty error text naming the status (table text or hex code, extended text when the pair is in "
+        "services; connected generic messages with Get_Instance_Attribute_List 0x55 / Read Tag Fragmented 0x52 answered 'status 6 + a page' are truthy and carry the page), otherwise falsy with non-empty error text naming the status (table text or hex code, extended text when the pair is in "
         "the table), error replies with and without data after the status words (1..40 bytes); header-only encapsulation errors "
         "{1,2,3,0x64,0x65,0x69} and encapsulation status {1,4,0x66,0x100,0x10000,0x80000000,0xFFFFFFFF} on replies that keep their body; every truncation length of each kind's valid reply; seeded random "
         "byte corruptions; multi-service replies whose service count / offset table do not match the replies that follow: public calls may raise only library exceptions and a reply too short for its status words is never a success. "
@@ -243,6 +243,31 @@ def run(ctx):
             sc.close()
         except ScenarioDead:
             continue
+
+    # ---- "or 6, partial transfer, for the services that legitimately continue": a caller who pages through a symbol list or a large value
+    # himself, with generic_message, gets each page as a success - status 6 with its data is not an error for Get_Instance_Attribute_List
+    # (0x55) and Read Tag Fragmented (0x52), the two services the library itself continues on status 6
+    work += 1
+    if ctx.mine(work):
+        try:
+            sc = fresh("gm_conn")
+            if sc.ok():
+                for svc_, cls_, inst_, rqd_ in ((0x55, 0x6B, 0, b"\x02\x00\x01\x00\x02\x00"), (0x52, 0x6B, 1, b"\x01\x00\x00\x00\x00\x00")):
+                    for _ in range(6 if quick else 40):
+                        page_ = bytes(rng.getrandbits(8) for _ in range(rng.choice([4, 20, 21, 200, 400])))
+                        sc.dev.force_status = lambda rq, s=svc_, pg=page_: (6, (), pg) if rq.service == s and not rq.embedded else None
+                        st, out = sc.b.call("gm_conn_page", sc.drv.generic_message, service=svc_, class_code=cls_, instance=inst_, request_data=rqd_, connected=True)
+                        sc.dev.force_status = None
+                        sc.dev.finish_transfers()
+                        sc.b.log.violations.clear()
+                        res.ev()
+                        res.seen("partial-transfer-page", svc_, len(page_) % 2)
+                        if st != "ok" or not truthy(out) or out.value != page_:
+                            res.violation("partial-transfer-page-not-a-success", f"connected generic_message(service={svc_:#x}) answered with status 6 (partial transfer) and a {len(page_)}-byte page -> {out!r:.200}; "
+                                                                                 f"expected a truthy Tag carrying the page", {"service": svc_})
+            sc.close()
+        except ScenarioDead:
+            pass
 
     # ---- per-service status vectors inside multi-service replies ----------------------------------------------------------------------
     vals = [0, 4, 5, 6, 0xFF] if quick else [0, 1, 4, 5, 6, 0x13, 0x1E, 0xFF]
